@@ -117,14 +117,17 @@ pub fn run(ctx: &mut Ctx, prop: &str) {
 
         // ---- the values returned are the values given, in rendering order, none lost, duplicated or moved (C01): compared with the
         // values an independent explicit rendering of the same recipe meets, in the dialect's grammar order (statements without templates)
-        if prop == "C01" && !recipe.contains("(custw ") && !g.named_window && !(b == B::Mysql && g.multi_from_update) {
-            let (_, want) = crate::explicit::render_bound(b, &q);
+        if prop == "C01" && !g.named_window && !(b == B::Mysql && g.multi_from_update) && !g.bracket_mark {
+            let (_, want, opaque) = crate::explicit::render_bound_t(b, &q);
+            if opaque { ctx.count("values.template-opaque"); }
+            if !opaque {
             let got: Vec<String> = r.values.iter().map(crate::stmt::value_tag).collect();
             ctx.count("values.compared");
             if got != want {
                 let k = (0..got.len().max(want.len())).find(|i| got.get(*i) != want.get(*i)).unwrap_or(0);
                 ctx.oracle_fail("the values returned are not the values given, in rendering order", serde_json::json!({"backend": b.name(), "recipe": recipe, "sql": r.sql, "first_difference_at": k,
                     "returned": got.iter().skip(k.saturating_sub(1)).take(4).collect::<Vec<_>>(), "given": want.iter().skip(k.saturating_sub(1)).take(4).collect::<Vec<_>>()}));
+            }
             }
         }
 
